@@ -369,6 +369,9 @@ pub use {
 // Re-exported since used in macro literal_matcher_from_pattern
 pub use {lazy_static, regex};
 
+#[cfg(feature = "verif")]
+pub use expression::verif;
+
 #[cfg(feature = "value")]
 mod value;
 #[cfg(feature = "partial")]
